@@ -165,7 +165,7 @@ async def run_case(ctx, rng, index):
             expected = []
             try:
                 for idx in seq:
-                    expected.append(c15.norm(await pool[idx].coro(ref.engine, s, None, None)))
+                    expected.append(c15.norm(await pool[idx].coro(ref.engine, s, None, None), ref.name))
             except Exception as e:  # noqa
                 ctx.violation("execute-raised", "reference engine: %r" % e, case)
                 continue
@@ -198,7 +198,7 @@ async def run_case(ctx, rng, index):
             for name, b, counting in under:
                 for pos, idx in enumerate(seq):
                     try:
-                        got = c15.norm(await pool[idx].coro(b.engine, s, None, None))
+                        got = c15.norm(await pool[idx].coro(b.engine, s, None, None), b.name)
                     except Exception as e:  # noqa
                         ctx.violation("execute-raised", "%s position %d: %r" % (name, pos, e), case)
                         break
@@ -211,7 +211,7 @@ async def run_case(ctx, rng, index):
             for pos in rng.sample(range(n), min(n, 2 if ctx.tier == "quick" else 4)):
                 fb = await build(s, sdl, "none", None, coercer)
                 try:
-                    got = c15.norm(await pool[seq[pos]].coro(fb.engine, s, None, None))
+                    got = c15.norm(await pool[seq[pos]].coro(fb.engine, s, None, None), fb.name)
                     st.inc("fresh_engine_positions")
                     if got != expected[pos]:
                         ctx.violation("fresh-engine-differs", "position=%d request=%d: fresh=%s long-lived=%s" % (
